@@ -3,14 +3,14 @@ import DryocVerif.Spec.ChaCha20
 import DryocVerif.Spec.Poly1305
 import DryocVerif.Model.Poly1305
 import DryocVerif.Model.SecretStream
+import DryocVerif.Model.Inst
 open DryocVerif
 open DryocVerif.Model.SecretStream
 namespace Driver.Stream
 
-def prims : Prims where
-  chacha := fun k n ctr len => Spec.ChaCha20.stream k n ctr len
-  hchacha := fun k i => Spec.ChaCha20.hchacha20 k i
-  mac := Model.Poly1305.mac
+/-- the primitives the *model* column is instantiated with: `Model.streamPrims`
+(`DryocVerif/Model/Inst.lean`), the very object the concrete theorems of `Properties/C03.lean` are about -/
+abbrev prims : Prims := Model.streamPrims
 
 /-- history interpreter state -/
 structure H where
